@@ -226,6 +226,84 @@ def random_shard(args):
     return agg
 
 
+def history_program(rng):
+    """Objects with invariants that are observed (or not) before being combined: the combined object must re-check
+    every inherited assert against the new self, whatever was already checked on the operands."""
+    num, st, std, call = genprog.num, genprog.s, genprog.std, genprog.call
+    nobj = rng.choice([2, 2, 3])
+    names = ["h%d" % i for i in range(nobj)]
+    binds = []
+    for i, nm in enumerate(names):
+        k = rng.randrange(5)
+        xval = num(rng.choice([-2, -1, 0, 1, 2, 5]))
+        if k == 0:
+            ms = [("massert", ("bin", rng.choice([">", ">=", "<", "!="]), ("dot", ("self",), "x"), num(rng.choice([0, 0, 1]))),
+                   st("inv-%s" % nm) if rng.random() < 0.8 else None),
+                  ("field", ("id", "x"), False, 1, xval)]
+            if rng.random() < 0.4:
+                ms.append(("field", ("id", "y"), False, rng.choice([1, 2]), ("bin", "+", ("dot", ("self",), "x"), num(1))))
+            rng.shuffle(ms)
+            e = ("obj", ms)
+        elif k == 1:
+            e = ("obj", [("field", ("id", "x"), rng.random() < 0.3, rng.choice([1, 1, 2]), xval)])
+        elif k == 2:
+            kk = "k%d" % i
+            e = ("objcomp", [], ("var", kk), False, xval, [], [("sfor", kk, ("arr", [st("x")]))])
+        elif k == 3:
+            ms = [("massert", ("bin", rng.choice(["<", ">="]), ("dot", ("self",), "y"), num(rng.choice([0, 3]))), st("invy-%s" % nm)),
+                  ("field", ("id", "y"), False, 1, ("bin", "*", ("dot", ("self",), "x"), num(2))),
+                  ("field", ("id", "x"), False, 1, xval)]
+            e = ("obj", ms)
+        else:
+            e = ("obj", [("massert", ("bin", "in", st("x"), ("self",)), st("needs-x-%s" % nm)),
+                         ("field", ("id", rng.choice(["x", "z"])), False, 1, xval)])
+        binds.append(("bind", nm, None, e))
+    uses = []
+    for nm in names:
+        k = rng.randrange(5)
+        v = ("var", nm)
+        if k == 0:
+            continue
+        if k == 1:
+            uses.append(("bin", "==", v, v))
+        elif k == 2:
+            uses.append(("bin", "==", ("dot", v, "x"), ("dot", v, "x")))
+        elif k == 3:
+            uses.append(("bin", ">=", call(std("length"), call(std("toString"), v)), num(0)))
+        else:
+            uses.append(("bin", ">=", call(std("length"), call(std("objectFields"), v)), num(0)))
+    order = names[:]
+    rng.shuffle(order)
+    comb = ("var", order[0])
+    for nm in order[1:]:
+        comb = ("bin", "+", comb, ("var", nm))
+    if rng.random() < 0.3:
+        comb = ("objext", comb, ("obj", [("field", ("id", "x"), rng.random() < 0.5, 1, num(rng.choice([-1, 1, 3])))]))
+    k = rng.randrange(4)
+    res = comb if k == 0 else ("dot", comb, "x") if k == 1 else ("bin", "==", comb, comb) if k == 2 else \
+        call(std("objectFields"), comb)
+    cond = None
+    for u in uses:
+        cond = u if cond is None else ("bin", "&&", cond, u)
+    body = res if cond is None else ("if", cond, res, st("unused"))
+    return ("local", binds, body)
+
+
+def history_shard(args):
+    seed, n = args
+    rng = random.Random(seed)
+    agg = Agg()
+    ev = Ev(agg)
+    try:
+        for i in range(n):
+            tree = history_program(rng)
+            m = compare_with_model(agg, ev, tree, "assert_history", modes=("min",), seed=rng.getrandbits(32))
+            agg.count("history:" + (m[0] if m[0] != "E" else m[1]))
+    finally:
+        ev.close()
+    return agg
+
+
 def templates_shard(args):
     seed, _ = args
     agg = Agg()
@@ -259,6 +337,9 @@ def run(tier, seed):
     n = 16_000 if quick else 1_000_000
     for a in common.pmap(random_shard, [(seed * 907 + i, n // 64) for i in range(64)]):
         total.merge(a)
+    nh = 6_000 if quick else 300_000
+    for a in common.pmap(history_shard, [(seed * 1931 + i, nh // 32) for i in range(32)]):
+        total.merge(a)
     for a in common.pmap(templates_shard, [(seed, 0)]):
         total.merge(a)
     rule = ("typed random programs over the core grammar (numbers, booleans, strings, arrays, objects with inheritance, "
@@ -267,7 +348,8 @@ def run(tier, seed):
             "syntax trees, printed minimal and noisy, evaluated by rsjsonnet and by a reference interpreter written "
             "from the specification; compared: manifested value (Value API walk) or failure class (+ message for "
             "error/assert); plus ~80 hand-derived feature-interaction templates with values/errors derived from the "
-            "specification. distinct_nontrivial = distinct generated programs on which both printings agreed with the "
+            "specification; plus an assert-history family (objects with invariants that are compared / read / "
+            "converted, or not, before being combined with +). distinct_nontrivial = distinct generated programs on which both printings agreed with the "
             "model + templates.")
     return common.finish(PROP, tier, seed, total, rule, t0, level="exploration",
                          assumptions=["driver/refinterp.py encodes the specification (trusted base); programs whose number "
